@@ -507,6 +507,7 @@ def run_shard(rec, seed, shard, tier):
     warnings.filterwarnings("ignore")
     if shard.get("i", 1) % 2 == 1:
         real.hostile_prelude(rec)  # a past: nothing the check decides may depend on it
+        real.toplevel_probes(rec, None, "after the hostile prelude")
     GT.ensure_registered()
     if shard["i"] % 4 == 0:
         run_misuse(rec, random.Random(f"{seed}/C13/{shard['i']}/misuse"))
